@@ -362,20 +362,28 @@ def _model_to_dict(m, enc):
 
 
 def _has_bitop(assertions):
+    """2: bit-level operation between two symbolic operands (or a symbolic shift count) -> bit-vector encoding first;
+    1: only masks with constants (the integer encoding turns them into mod/div) -> integer first, quickly, then bit-vector;
+    0: none"""
     seen = set()
     stack = [a for a in assertions if not isinstance(a, bool)]
+    score = 0
     while stack:
         t = stack.pop()
         if isinstance(t, (int, bool, str)) or t is None or id(t) in seen:
             continue
         seen.add(id(t))
-        if t[0] in ("and", "or", "xor") and not (isinstance(t[1], int) and isinstance(t[2], int)):
-            return True
+        if t[0] in ("and", "or", "xor"):
+            if not isinstance(t[1], int) and not isinstance(t[2], int):
+                return 2
+            score += 1
+            if score > 6:
+                return 2
         if t[0] in ("shl", "shr") and not isinstance(t[2], int):
-            return True
+            return 2
         if t[0] != "var":
             stack.extend(t[1:])
-    return False
+    return 1 if score else 0
 
 
 def _check_int(assertions, rlimit, want_model):
@@ -434,15 +442,16 @@ def check(assertions, rlimit=None, want_model=True, use_cvc5=True):
         return Result("unsat", backend="trivial", time_=0.0)
     rl = rlimit or DEFAULT_RLIMIT
     bit = _has_bitop(assertions)
-    order = ("bv", "int") if bit else ("int", "bv")
+    order = {2: (("bv", rl), ("int", rl // 4)), 1: (("int", rl // 20), ("bv", rl), ("int", rl)),
+             0: (("int", rl), ("bv", rl))}[bit]
     last = None
     s_int = enc_int = None
     reasons = []
-    for which in order:
+    for which, budget in order:
         if which == "int":
-            r, s_int, enc_int = _check_int(assertions, rl if not bit else rl // 4, want_model)
+            r, s_int, enc_int = _check_int(assertions, budget, want_model)
         else:
-            r = _check_bv(assertions, rl, want_model)
+            r = _check_bv(assertions, budget, want_model)
         if r.status in ("sat", "unsat"):
             r.time = time.time() - t0
             STATS["time"] += r.time
@@ -514,17 +523,18 @@ class Incremental(object):
         self.s = z3.Solver()
         self.rl = rlimit or 2000000
         self.s.set("rlimit", self.rl)
-        self.s.set("timeout", int(os.environ.get("VERIF_FEAS_MS", "4000")))
+        self.feas_ms = int(os.environ.get("VERIF_FEAS_MS", "4000"))
+        self.s.set("timeout", self.feas_ms)
         self.broken = None
         self.pc = []
-        self.has_bit = False
+        self.has_bit = 0
 
     def add(self, t):
         if t is True:
             return
         self.pc.append(t)
-        if not self.has_bit and _has_bitop([t]):
-            self.has_bit = True
+        if self.has_bit < 2:
+            self.has_bit = max(self.has_bit, _has_bitop([t]))
         try:
             self.s.add(self.enc.enc(t))
         except EncodingUnsupported as e:
@@ -538,7 +548,8 @@ class Incremental(object):
         STATS["queries"] += 1
         t0 = time.time()
         try:
-            if self.has_bit or (t is not True and _has_bitop([t])):
+            bit = max(self.has_bit, _has_bitop([t]) if t is not True else 0)
+            if bit == 2:
                 r = _check_bv(self.pc + ([t] if t is not True else []), self.rl, False)
                 if r.status in ("sat", "unsat"):
                     return r.status
@@ -549,7 +560,17 @@ class Incremental(object):
                     extra = [self.enc.enc(t)]
                 except EncodingUnsupported:
                     return "unknown"
+            if bit == 1:
+                self.s.set("timeout", 400)
             r = self.s.check(*extra)
+            if bit == 1:
+                self.s.set("timeout", self.feas_ms)
+                if r == z3.unknown:
+                    self.has_bit = 2       # the integer solver struggles with this path's masks: bit-vectors first from now on
+                    r2 = _check_bv(self.pc + ([t] if t is not True else []), self.rl, False)
+                    if r2.status in ("sat", "unsat"):
+                        return r2.status
+                    r = self.s.check(*extra)
             if r == z3.sat:
                 return "sat"
             if r == z3.unsat:
